@@ -12,6 +12,7 @@ the promised form (canonical coefficients, gate counts, gate kinds).
 """
 from __future__ import annotations
 
+import functools
 import itertools
 import json
 import math
@@ -123,6 +124,61 @@ def canonical_ok(x, y, z, tol=1e-7):
 
 
 # ------------------------------------------------------------------------------ matrix factorisations
+def check_factoring(ctx, cirq, n):
+    """factor_state_vector / factor_density_matrix: on a product state, for every choice and order of the extracted axes, the
+    factors multiply back to the input (validation accepts it); an entangled state is rejected"""
+    from cirq.linalg import transformations as T
+
+    rng = ctx.substream('factoring')
+    for _ in range(n):
+        dims = [rng.choice([2, 2, 3]) for _ in range(rng.randint(2, 3))]
+        vecs = [np.array([complex(rng.gauss(0, 1), rng.gauss(0, 1)) for _ in range(d)]) for d in dims]
+        vecs = [v / np.linalg.norm(v) for v in vecs]
+        rhos = []
+        for d in dims:
+            a = np.array([[complex(rng.gauss(0, 1), rng.gauss(0, 1)) for _ in range(d)] for _ in range(d)])
+            m = a @ a.conj().T
+            rhos.append(m / np.trace(m))
+        psi = functools.reduce(np.kron, vecs).reshape(dims)
+        rho = functools.reduce(np.kron, rhos).reshape(dims * 2)
+        k = rng.randint(1, len(dims) - 1)
+        axes = rng.sample(range(len(dims)), k)
+        rest = [i for i in range(len(dims)) if i not in axes]
+        ctx.count('check', 'factor')
+        ctx.case(['factor', dims, axes], True)
+        rep = {'lines': [{'dims': dims, 'axes': axes}], 'theorem_or_correspondence': 'factor product'}
+        try:
+            e, r = T.factor_density_matrix(rho, axes, validate=True)
+            want_e = functools.reduce(np.kron, [rhos[i] for i in axes])
+            want_r = functools.reduce(np.kron, [rhos[i] for i in rest])
+            ok = np.allclose(e.reshape(want_e.shape), want_e, atol=1e-7) and np.allclose(r.reshape(want_r.shape), want_r, atol=1e-7)
+            what = 'factors differ from the factors of the product state'
+        except ValueError as ex:
+            ok, what = False, f'a product state is rejected: {ex}'
+        if not ok:
+            ctx.report_witness('factor:density_matrix', 'factor_density_matrix: ' + what, dict(rep, impl_out=[what], spec_out=['extracted (x) remainder = input']))
+        try:
+            e, r = T.factor_state_vector(psi, axes, validate=True)
+            want_e = functools.reduce(np.kron, [vecs[i] for i in axes])
+            want_r = functools.reduce(np.kron, [vecs[i] for i in rest])
+            full = np.kron(e.reshape(-1), r.reshape(-1))
+            ref = np.kron(want_e, want_r)
+            ok = np.allclose(full, ref, atol=1e-7)
+            what = 'factors do not multiply back to the input'
+        except ValueError as ex:
+            ok, what = False, f'a product state is rejected: {ex}'
+        if not ok:
+            ctx.report_witness('factor:state_vector', 'factor_state_vector: ' + what, dict(rep, impl_out=[what], spec_out=['extracted (x) remainder = input']))
+    bell = np.zeros((2, 2), dtype=complex)
+    bell[0, 0] = bell[1, 1] = 1 / np.sqrt(2)
+    for name, f, arg in (('state_vector', T.factor_state_vector, bell), ('density_matrix', T.factor_density_matrix, np.outer(bell.reshape(-1), bell.reshape(-1).conj()).reshape(2, 2, 2, 2))):
+        try:
+            f(arg, [0], validate=True)
+            ctx.report_witness(f'factor:{name}:entangled', f'factor_{name} with validation accepts an entangled state', {'lines': [{'state': 'Bell'}], 'impl_out': ['accepted'], 'spec_out': ['ValueError'], 'theorem_or_correspondence': 'factor product'})
+        except ValueError:
+            pass
+
+
 def check_matrix_routines(ctx, cirq, n):
     rng = ctx.substream('matrix')
     for i in range(n):
@@ -364,6 +420,7 @@ def run(ctx: common.Run):
     n = 40 if ctx.tier == 'quick' else 800
     check_canonicalize(ctx, cirq, n * 2)
     check_matrix_routines(ctx, cirq, n)
+    check_factoring(ctx, cirq, max(20, n // 2))
     check_synthesis(ctx, cirq, n)
 
 
